@@ -364,7 +364,8 @@ def run_local(case):
         store[(lab, n1, n2)] = (a, res < CLOSED)
         if res >= CLOSED:
             continue
-        nclosed += 1
+        if np.abs(B2 @ R @ B1.T - np.eye(3)).max() > 1e-6:
+            nclosed += 1
         where = f"shell={sh!r} rotation={lab} basis1={n1} basis2={n2}"
         if np.abs(a - ar).max() > TOL:
             return {"ok": False, "key": f"OrbitalRotator:local_basis:differs_from_reference:{shell_key(sh)}",
@@ -395,7 +396,7 @@ def run_local(case):
                 if np.abs(c - a1 @ a2).max() > TOL:
                     return {"ok": False, "key": f"OrbitalRotator:local_basis:composition:{shell_key(sh)}",
                             "detail": f"shell={sh!r} {l1}*{l2} frames {n1}->{n2}->{n3}: {np.abs(c - a1 @ a2).max():.3e}"}
-    return {"ok": True, "nontrivial": ((shell_key(sh), "local") if nclosed > 9 else False),
+    return {"ok": True, "nontrivial": ((shell_key(sh), "local") if nclosed > 0 else False),
             "obs": {"evaluations": neval, "closed": nclosed, "pairs": npairs}}
 
 
